@@ -18,8 +18,8 @@ import (
 )
 
 type Ctx struct {
-	P    *load.Program
-	R    *report.Run
+	P     *load.Program
+	R     *report.Run
 	Tier  string
 	mu    sync.Mutex
 	namer *absint.Analyzer
